@@ -30,6 +30,8 @@ On(s, e) ==
                     <<Blame(s) \o ":timeout", e.timeout = s.cfg.timeout>>,
                     <<Blame(s) \o ":retries", e.retries = s.cfg.retries>>,
                     <<Blame(s) \o ":credentials", e.ident = s.cfg.creds>>,
+                    \* every datagram of the request - the v3 discovery probe included - reaches the transport with the settings in force
+                    <<Blame(s) \o ":transport_of_discovery", \A i \in DOMAIN e.wire : e.wire[i] = <<s.cfg.timeout, s.cfg.retries>> >>,
                     <<"version_not_switched", e.version = Family(s.cfg.creds)>> >>]
     [] OTHER -> [st |-> s, cl |-> << <<"MACHINERY_unknown_event", FALSE>> >>]
 Init == tid \in 1..Len(Traces) /\ l = 1 /\ st = St0 /\ verdict = <<"ok", 0>>
